@@ -134,6 +134,10 @@ def h_call(ctx, kind, flags, enc):
 def h_ping(ctx, flags, enc):
     st, bottom, app, mgr = _stack(flags, enc)
     N = SC.N()
+    # state left over from the client's own traffic: one layer (solver's choice) has a request outstanding; the server's ping may
+    # carry that very id (both sides count from 1)
+    from checks import c06
+    c06.pending_request(ctx, st, bottom)
     pid = H.zstr(ctx, "id")
     bottom.inject(N("iq", {"id": pid, "type": "get", "xmlns": "urn:xmpp:ping", "from": "s.whatsapp.net"}, [N("ping")] if ctx.flag("ping_child") else []))
     iqs = _count(bottom.down, "iq")
